@@ -653,14 +653,20 @@ theorem expr_simF (F1 : Nat) : ∀ F2, ISimE c F1 F2 ∧ ISimL c F1 F2 ∧ ISimU
 
 end
 
+/-- The same expression tree, or the same failure up to its position (`Fail.erase`: same message,
+same found / expected tokens; line and column may differ). -/
+def SameResult (r1 r2 : Except Fail Expr) : Prop :=
+  match r1, r2 with
+  | .ok e1, .ok e2 => e1 = e2
+  | .error f1, .error f2 => f1.erase = f2.erase
+  | _, _ => False
+
 /-- Two parses whose initial cursors are related: the same tree, or the same failure up to its
 position. Fuel is never exhausted (`parseExprText_total`). -/
 theorem parseExprText_inline {c : ICtx} (hc : c.OK) (template inlined : Str) (tbl : List (Char × Char))
     (h : CR c (Cursor.ofRunes template) (Cursor.ofRunes inlined)) :
-    match parseExprText template c.params tbl, parseExprText inlined c.params tbl with
-    | .ok e1, .ok e2 => e1 = e2
-    | .error f1, .error f2 => f1.erase = f2.erase
-    | _, _ => False := by
+    SameResult (parseExprText template c.params tbl) (parseExprText inlined c.params tbl) := by
+  unfold SameResult
   have hsr : SR c (PState.init template c.params tbl) (PState.init inlined c.params tbl) :=
     ⟨rfl, rfl, rfl, rfl, All2.nil, h⟩
   have hsim := (expr_simF hc (fuelFor template) (fuelFor inlined)).1 _ _ (Or.inl hsr)
